@@ -558,6 +558,11 @@ def gen_C05(r, tier):
             for wd in words:
                 sched = list(wd) + [i for _ in range(2 * R + 3) for i in range(W)]
                 cases.append("osched 2 1 2c %d %s %s" % (W, ",".join(map(str, sched)), hxlist(recs)))
+    # more than 2^16 records: a record number or row offset kept in a narrower type shows only here (the limit of
+    # 100 bases is for the model, whose batch loop is quadratic in the number of buffered records; the mapped writer
+    # does not batch)
+    big = [bytes(r.choices(NUC, k=1 + r.below(3))) for _ in range(2 ** 16 + 5)]
+    cases.append("ofile 1 1 %d 2c %d 100 mmap fa 60 %s" % (r.below(2), r.pick([4, 16]), hxlist(big)))
     return cases
 
 def extra_C05(cases, impl):
